@@ -110,6 +110,16 @@ Theorem C10_rejects : forall cfg s o s', DWF s -> dstep cfg s o = (s', Ok) -> mu
 Proof. exact accepted_not_must_reject. Qed.
 Print Assumptions C10_rejects.
 
+(* the constructor, both directions: DAGNode(nm, parents=pa, children=ca) (hooks not failing) is
+   accepted iff pa is a list, ca is iterable and `must_reject_b` is false *)
+Theorem C10_rejects_new : forall cfg s nm pa ca, DWF s ->
+  dop_in_range s (DNew nm pa ca DNoFault DNoFault) = true ->
+  (snd (dstep cfg s (DNew nm pa ca DNoFault DNoFault)) = Ok <->
+   carg_cont pa = DList /\ carg_cont ca <> DNonIter
+   /\ must_reject_b s (DNew nm pa ca DNoFault DNoFault) = false).
+Proof. exact construct_accepts_iff. Qed.
+Print Assumptions C10_rejects_new.
+
 (* --- all clauses at once, in the form the correspondence check evaluates ---------------------- *)
 
 (* along every history, every step satisfies the C10 step predicate *)
